@@ -704,8 +704,11 @@ class Engine:
             return self._exec_stmt(node, st)
         except Fork as f:
             outs = []
-            for label, cond, kind, payload in f.alts:
+            for alt in f.alts:
+                label, cond, kind, payload = alt[:4]
                 s2 = st.fork()
+                if len(alt) > 4 and alt[4] is not None:
+                    alt[4](s2)
                 if cond is not None:
                     s2.assume(cond)
                     if not feasible(s2.pc):
@@ -944,7 +947,19 @@ class Engine:
         if feasible(body.pc):
             body.trace.append('iter')
             self.ctx.add(core.satisfiable('%s/%s/vacuity/body-reachable' % (self.label, tag), list(body.pc)))
+            head_env = dict(h.env)
+            head_self = dict(h.env['self'].fields) if isinstance(h.env.get('self'), SRecord) else {}
             for s2, oc in self.exec_block(node.body, body):
+                # soundness guard: everything the body changed must have been havocked at the loop head
+                for nm, v0 in head_env.items():
+                    if nm in mod or nm.startswith('__') or isinstance(v0, SRecord):
+                        continue
+                    if nm in s2.env and s2.env[nm] is not v0 and not _same_value(s2.env[nm], v0):
+                        raise core.CheckerBug('loop #%d of %s changes %r which was not havocked (add it to LoopSpec.modifies)' % (ordinal, self.c.qualname, nm))
+                if head_self and isinstance(s2.env.get('self'), SRecord):
+                    for fn_, v0 in head_self.items():
+                        if 'self.' + fn_ not in mod and s2.env['self'].fields.get(fn_) is not v0 and not _same_value(s2.env['self'].fields.get(fn_), v0):
+                            raise core.CheckerBug('loop #%d of %s changes self.%s which was not havocked' % (ordinal, self.c.qualname, fn_))
                 if oc[0] in ('next', 'continue'):
                     if is_for:
                         s2.env[spec.index] = s2.env[spec.index] + 1
@@ -1522,9 +1537,13 @@ class Engine:
             return z3.BoolVal(r) if isinstance(r, bool) else r
         # contract-supplied call models take precedence
         if fname is not None and fname in self.c.calls:
+            args = [self.ev_lenient(a, st) for a in node.args]
+            kw = {k.arg: self.ev_lenient(k.value, st) for k in node.keywords if k.arg is not None}
+            return self.c.calls[fname](self, st, args, kw, node)
+        if fname is not None and fname in self.callees:
             args = [self.ev(a, st) for a in node.args]
             kw = {k.arg: self.ev(k.value, st) for k in node.keywords}
-            return self.c.calls[fname](self, st, args, kw, node)
+            return self.call_contract(self.callees[fname], args, kw, st, node)
         func = self.ev(node.func, st) if not isinstance(node.func, ast.Name) or node.func.id in st.env else SDotted(node.func.id)
         if isinstance(func, SFunc):
             was = getattr(self, 'in_spec', False)
@@ -1546,6 +1565,45 @@ class Engine:
         if isinstance(func, SDotted):
             return self.call_builtin(func.name, node, st)
         raise Undecided('call of %r' % (func,))
+
+    def ev_lenient(self, a, st):
+        if isinstance(a, ast.Starred):
+            return ('*', None)
+        return self.ev(a, st)
+
+    def call_contract(self, cc: Contract, args, kw, st, node):
+        """modular call: assert the callee's precondition, havoc nothing (callees under contract here are pure),
+        assume its postcondition on a fresh result"""
+        callee = find_function(self.tree if cc.path == self.c.path else ast.parse(core.read_repo(cc.path)), cc.qualname)
+        a = callee.args
+        names = [x.arg for x in a.posonlyargs + a.args]
+        if names and names[0] == 'self':
+            names = names[1:]
+        env = dict(self.modconsts)
+        env.update(cc.consts)
+        defaults = a.defaults
+        for n_, d in zip(names[len(names) - len(defaults):], defaults):
+            env[n_] = self.ev(d, State(dict(self.modconsts), st.pc))
+        for n_, v in zip(names, args):
+            env[n_] = v
+        for k_, v in kw.items():
+            env[k_] = v
+        for name, (ats, rt) in cc.spec_funcs.items():
+            f = self.uf(name, ats, rt)
+            rtp = parse_type(rt)
+            env[name] = SFunc(name, (lambda f, rtp: lambda eng, s, args, kw, node: from_z3(f(*[to_z3(a) for a in args]), rtp))(f, rtp))
+        s2 = State(env, st.pc)
+        s2.trace = st.trace
+        for i, r in enumerate(cc.requires):
+            self.oblige(s2, 'call/%s/pre#%d@L%d' % (cc.qualname, i, node.lineno), self.ev_bool_str(r, s2), clause=r)
+        rt = parse_type(cc.types.get('result', 'U'))
+        res = fresh_value(rt, 'ret_' + cc.qualname)
+        for w in wf_constraints(res):
+            st.assume(w)
+        env['result'] = res
+        for name, e in cc.ensures:
+            st.assume(self.ev_bool_str(e, s2))
+        return res
 
     def quant(self, kind, node, st):
         lam = node.args[-1]
@@ -1678,6 +1736,19 @@ class Engine:
 
 # ---------------------------------------------------------------------------------------------
 # helpers
+
+
+def _same_value(a, b):
+    if isinstance(a, z3.ExprRef) and isinstance(b, z3.ExprRef):
+        return a.eq(b)
+    if isinstance(a, SList) and isinstance(b, SList):
+        return a.len.eq(b.len) and (a.arr is b.arr or (a.arr is not None and b.arr is not None and a.arr.eq(b.arr)))
+    if isinstance(a, tuple) and isinstance(b, tuple) and len(a) == len(b):
+        return all(_same_value(x, y) for x, y in zip(a, b))
+    try:
+        return bool(a == b) and type(a) == type(b)
+    except Exception:
+        return False
 
 
 def _load(t):
